@@ -223,8 +223,10 @@ Section Cmp.
         + apply map_nilify_forall2. exact E'.
         + intros x Hx. apply in_lsize in Hx. apply view_items_size in Ef. lia.
       - pose proof (get_item_n fs gs Hf F_URL) as N.
-        rewrite <- (nsame_is_nil _ _ N). destruct (is_nil (get_item F_URL fs)); [reflexivity|].
-        rewrite (nsame_lnk _ _ N), iri_eqb_refl. reflexivity.
+        rewrite <- (nsame_is_nil _ _ N). destruct (is_nil (get_item F_URL fs)) eqn:Z; [reflexivity|].
+        (* url goes through ItemsEqual like its siblings (fix "Object.Equals compared url by GetLink() only") *)
+        apply IH; [exact N|]. apply Nat.le_trans with (fsize fs); [|exact Hsz].
+        apply get_item_size. intro X. rewrite X in Z. discriminate.
       - rewrite <- (get_time_n fs gs Hf). destruct (vtime_is_zero _); [reflexivity|]. unfold time_equal. rewrite !Z.eqb_refl. reflexivity.
       - rewrite <- (get_dur_n fs gs Hf). destruct (_ =? 0)%Z; [reflexivity|]. rewrite Z.eqb_refl. reflexivity.
       - rewrite <- (get_uint_n fs gs Hf). destruct (_ =? 0)%N; [reflexivity|]. rewrite N.eqb_refl. reflexivity.
